@@ -116,6 +116,15 @@ CHECKS += [
     },
 ]
 
+CHECKS += [
+    {
+        "property_id": "C11", "engine": "symx", "category": "model_checking",
+        "technique": "bounded relational symbolic execution: a long-lived Sampler/QuickSampler after every sequence of reconfigurations vs a fresh object with the same settings, symbolic old/new values so that z3 decides both sides of every cache comparison",
+        "text": "For all symbolic parameter values (old and new, equal or different) and every sequence of 2 reconfigurations out of 9 with or without an intermediate read: the long-lived object's distribution equals the fresh object's (same support, same values, same error if any), sampling after a change draws from the current distribution, sample() works without a prior read, and an Analyzer result carries an error rate only when that call was given expected outputs.",
+        "design_ref": "DESIGN.md section 4 C11", "note": SYMX_NOTE,
+    },
+]
+
 _TODO = "check not built yet in this round; see DESIGN.md section 4 for the plan"
 NOT_APPLICABLE = [
     {"property_id": f"C{i:02d}", "reason": _TODO} for i in range(2, 20) if f"C{i:02d}" not in {c["property_id"] for c in CHECKS}
